@@ -67,7 +67,7 @@ def main(argv=None):
     rc = core.finish(mod, tier, seed, tot, crashes, time.time() - t0, extra_cov=extra)
     if rc == 1 and not a.no_reverify and hasattr(mod, "replay"):
         # every reported violation must reproduce from its replay file in a FRESH process
-        rdir = os.path.join(core.HOME, "replays", mod.PROPERTY)
+        rdir = os.path.join(core.OUT, "replays", mod.PROPERTY)
         shown = [ln for ln in []]
         bad = 0
         import re
